@@ -462,6 +462,13 @@ theorem quadratic_hamiltonian_docstring (n : Nat) (herm Δ : Tensor) (c mu : GQ)
   exact mkQH_docstring n herm Δ c mu hH hΔ (fun τ => termMel τ t s)
     (fun p q => termMel_pair_antisym t s 0 (by omega) p q)
 
+/-- the same without an antisymmetric part (`antisymmetric_part=None`): the docstring operator with `Δ = 0` -/
+theorem quadratic_hamiltonian_docstring_none (n : Nat) (herm : Tensor) (c mu : GQ) (hH : Shaped n 2 herm)
+    (t s : Nat) :
+    melF (denotePT (mkQH n herm none c mu).d) t s = melF (denoteQH n herm (tzeros n 2) mu c) t s := by
+  rw [melF_eq_evalW, melF_eq_evalW]
+  exact mkQH_docstring_none n herm c mu hH (fun τ => termMel τ t s)
+
 /-- non-vacuity: 2 × 2 arrays have the shape the theorem asks for -/
 example : Shaped 2 2 (tzeros 2 2) ∧ Shaped 2 2 (Tensor.v [.v [.s 0, .s 1], .v [.s (-1), .s 0]]) := by
   refine ⟨Shaped_tzeros 2 2, ?_⟩
